@@ -16,6 +16,7 @@ type G struct {
 	L, R     string // action delimiters
 	CL, CR   string // comment delimiters
 	MaxDepth int
+	Strays   bool           // also emit {{else}} / {{content}} / {{catch}} where they do not belong (C20: parser must reject them or Walk must cope)
 	Kinds    map[string]int // node kinds produced (for labels)
 	blockN   int
 }
@@ -75,6 +76,19 @@ func (g *G) text() string {
 }
 
 func (g *G) stmt(depth int) string {
+	if g.Strays && g.n(0, 40, "stray") == 0 {
+		g.kind("stray-pseudo-node")
+		switch g.n(0, 3, "straykind") {
+		case 0:
+			return g.act("else")
+		case 1:
+			return g.act("content")
+		case 2:
+			return g.act("catch") + g.text() + g.act("end")
+		default:
+			return g.act("catch "+g.ident()) + g.act("end")
+		}
+	}
 	max := 13
 	if depth >= g.MaxDepth {
 		max = 4
